@@ -561,6 +561,105 @@ def gen_subscriber(sd):
     return out
 
 
+# ---- sd.py: TimedStore (refresh / stop / _expired / stop_all_for_address; C05, C06, C09) ----
+def ts_pop(st):
+    """(callback-or-_, handle-name) = self.store[address].pop(entry)  ->  name of the handle variable"""
+    if not (isinstance(st, ast.Assign) and len(st.targets) == 1 and isinstance(st.targets[0], ast.Tuple) and len(st.targets[0].elts) == 2
+            and isinstance(st.value, ast.Call) and dotted(st.value.func) is None):
+        pass
+    if not (isinstance(st, ast.Assign) and len(st.targets) == 1 and isinstance(st.targets[0], ast.Tuple) and len(st.targets[0].elts) == 2 and isinstance(st.value, ast.Call)):
+        return None
+    f = st.value.func
+    ok = (isinstance(f, ast.Attribute) and f.attr == "pop" and isinstance(f.value, ast.Subscript) and dotted(f.value.value) == "self.store"
+          and getattr(f.value.slice, "id", None) == "address" and [getattr(a, "id", None) for a in st.value.args] == ["entry"] and not st.value.keywords)
+    return getattr(st.targets[0].elts[1], "id", None) if ok else None
+
+
+def ts_stmts(stmts, handles, cb_names):
+    """statement list of a TimedStore method -> Gallina term : list tact"""
+    if not stmts:
+        return "[]"
+    st, rest = stmts[0], stmts[1:]
+    if is_noise(st):
+        return ts_stmts(rest, handles, cb_names)
+    if isinstance(st, ast.Return) and st.value is None:
+        return "[]"
+    if isinstance(st, ast.Try):
+        h = ts_pop(st.body[0]) if st.body else None
+        if h is None or len(st.handlers) != 1 or getattr(st.handlers[0].type, "id", "") != "KeyError" or st.orelse or st.finalbody:
+            raise Abort("TimedStore: unexpected try")
+        handles = handles | {h}
+        hb = [s for s in st.handlers[0].body if not is_noise(s)]
+        body_t = ts_stmts(st.body[1:], handles, cb_names)
+        if hb and isinstance(hb[-1], ast.Return) and hb[-1].value is None:
+            return f"(if found then (TPop :: ({body_t} ++ {ts_stmts(rest, handles, cb_names)})) else {ts_stmts(hb, handles, cb_names)})"
+        return f"((if found then (TPop :: {body_t}) else {ts_stmts(hb, handles, cb_names)}) ++ {ts_stmts(rest, handles, cb_names)})"
+    if isinstance(st, ast.If) and not st.orelse and getattr(st.test, "id", None) in handles:
+        return f"((if timer then {ts_stmts(st.body, handles, cb_names)} else []) ++ {ts_stmts(rest, handles, cb_names)})"
+    if isinstance(st, ast.If) and not st.orelse and isinstance(st.test, ast.Compare) and len(st.test.ops) == 1 and isinstance(st.test.ops[0], ast.NotEq) \
+            and getattr(st.test.left, "id", None) == "ttl" and getattr(st.test.comparators[0], "id", None) == "TTL_FOREVER":
+        b = st.body
+        ok = (len(b) == 1 and isinstance(b[0], ast.Assign) and getattr(b[0].targets[0], "id", None) == "timeout_handle" and isinstance(b[0].value, ast.Call)
+              and isinstance(b[0].value.func, ast.Attribute) and b[0].value.func.attr == "call_later" and isinstance(b[0].value.func.value, ast.Call)
+              and dotted(b[0].value.func.value.func) == "asyncio.get_event_loop" and not b[0].value.keywords and len(b[0].value.args) == 4
+              and getattr(b[0].value.args[0], "id", None) == "ttl" and dotted(b[0].value.args[1]) == "self._expired"
+              and [getattr(a, "id", None) for a in b[0].value.args[2:]] == ["address", "entry"])
+        if not ok:
+            raise Abort("TimedStore.refresh: unexpected timer arming")
+        return f"((if negb forever then (TArm :: []) else []) ++ {ts_stmts(rest, handles, cb_names)})"
+    if isinstance(st, ast.Assign) and getattr(st.targets[0], "id", None) == "timeout_handle" and isinstance(st.value, ast.Constant) and st.value.value is None:
+        return ts_stmts(rest, handles, cb_names)
+    if isinstance(st, ast.Assign) and isinstance(st.targets[0], ast.Subscript):
+        t = st.targets[0]
+        ok = (isinstance(t.value, ast.Subscript) and dotted(t.value.value) == "self.store" and getattr(t.value.slice, "id", None) == "address"
+              and getattr(t.slice, "id", None) == "entry" and isinstance(st.value, ast.Tuple)
+              and [getattr(e, "id", None) for e in st.value.elts] == ["callback_expired", "timeout_handle"])
+        if not ok:
+            raise Abort("TimedStore: unexpected store assignment")
+        return f"(TStore :: {ts_stmts(rest, handles, cb_names)})"
+    if isinstance(st, ast.Expr) and isinstance(st.value, ast.Call):
+        c = st.value
+        if isinstance(c.func, ast.Attribute) and c.func.attr == "cancel" and getattr(c.func.value, "id", None) in handles and not c.args and not c.keywords:
+            return f"(TCancel :: {ts_stmts(rest, handles, cb_names)})"
+        if getattr(c.func, "id", None) in cb_names and [getattr(a, "id", None) for a in c.args] == ["entry", "address"] and not c.keywords:
+            return f"({cb_names[c.func.id]} :: {ts_stmts(rest, handles, cb_names)})"
+        raise Abort("TimedStore: unsupported call")
+    raise Abort("TimedStore: unsupported statement " + type(st).__name__)
+
+
+def gen_timed_store(sd):
+    out = []
+    TS = sd.TimedStore
+    f = fn_ast(TS.refresh)
+    if [a.arg for a in f.args.args] != ["self", "ttl", "address", "entry", "callback_new", "callback_expired"]:
+        raise Abort("TimedStore.refresh: unexpected parameters")
+    out.append(f"Definition gen_ts_refresh (found timer forever : bool) : list tact :=\n  {ts_stmts(body_of(f), set(), {'callback_new': 'TCallNew'})}.\n")
+    f = fn_ast(TS.stop)
+    if [a.arg for a in f.args.args] != ["self", "address", "entry"]:
+        raise Abort("TimedStore.stop: unexpected parameters")
+    out.append(f"Definition gen_ts_stop (found timer : bool) : list tact :=\n  {ts_stmts(body_of(f), set(), {'callback': 'TCallback'})}.\n")
+    f = fn_ast(TS._expired)
+    if [a.arg for a in f.args.args] != ["self", "address", "entry"]:
+        raise Abort("TimedStore._expired: unexpected parameters")
+    out.append(f"Definition gen_ts_expired (found timer : bool) : list tact :=\n  {ts_stmts(body_of(f), set(), {'callback': 'TCallback'})}.\n")
+    # stop_all_for_address: entries = list(self.store[address].items()); self.store[address].clear(); for entry, (callback, handle) in entries: <body>
+    f = fn_ast(TS.stop_all_for_address)
+    b = [s for s in body_of(f) if not is_noise(s)]
+    ok = ([a.arg for a in f.args.args] == ["self", "address"] and len(b) == 3 and isinstance(b[0], ast.Assign) and getattr(b[0].targets[0], "id", None) == "entries"
+          and isinstance(b[0].value, ast.Call) and getattr(b[0].value.func, "id", None) == "list" and len(b[0].value.args) == 1
+          and isinstance(b[0].value.args[0], ast.Call) and isinstance(b[0].value.args[0].func, ast.Attribute) and b[0].value.args[0].func.attr == "items"
+          and isinstance(b[0].value.args[0].func.value, ast.Subscript) and dotted(b[0].value.args[0].func.value.value) == "self.store"
+          and isinstance(b[1], ast.Expr) and isinstance(b[1].value, ast.Call) and isinstance(b[1].value.func, ast.Attribute) and b[1].value.func.attr == "clear"
+          and isinstance(b[1].value.func.value, ast.Subscript) and dotted(b[1].value.func.value.value) == "self.store"
+          and isinstance(b[2], ast.For) and not b[2].orelse and getattr(b[2].iter, "id", None) == "entries" and isinstance(b[2].target, ast.Tuple)
+          and getattr(b[2].target.elts[0], "id", None) == "entry" and isinstance(b[2].target.elts[1], ast.Tuple)
+          and [getattr(e, "id", None) for e in b[2].target.elts[1].elts] == ["callback", "handle"])
+    if not ok:
+        raise Abort("TimedStore.stop_all_for_address: expected snapshot, clear, loop")
+    out.append(f"Definition gen_ts_stop_all_each (timer : bool) : list tact :=\n  {ts_stmts(b[2].body, {'handle'}, {'callback': 'TCallback'})}.\n")
+    return out
+
+
 # ---- service.py: SimpleService.message_received (the reply decision chain of C16) ----
 MSG_ATTR = {"service_id": "m_sid m", "interface_version": "m_iv m", "method_id": "m_mid m", "message_type": "m_mt m", "return_code": "m_rc m"}
 SELF_ATTR = {"service_id": "svc_id", "version_major": "ver"}
@@ -673,7 +772,7 @@ def main():
         import someip.config as cfg
         import someip.sd as sd
         import someip.service as svc
-        parts = gen_matchers(cfg) + gen_check_received(sd) + gen_assign_outgoing(sd) + gen_skeletons(sd) + gen_inst_subscribe(sd) + gen_subscriber(sd) + gen_service(svc)
+        parts = gen_matchers(cfg) + gen_check_received(sd) + gen_assign_outgoing(sd) + gen_skeletons(sd) + gen_inst_subscribe(sd) + gen_subscriber(sd) + gen_timed_store(sd) + gen_service(svc)
     except Abort as exc:
         print("gen_logic: ABORT:", exc)
         return 2
